@@ -408,7 +408,7 @@ static void case_nd_prng(vf_rng *r)
 		v[d] = static_cast<double *>(vf_xalloc(n * sizeof(double)));
 		gen_data(r, v[d], n, rg[d][0], rg[d][1], vis);
 		vf_fp(v[d], n * sizeof(double)); vf_fp(rg[d], sizeof(rg[d]));
-		l += snprintf(desc + l, sizeof(desc) - l, " dim %d [%g,%g]:", d, rg[d][0], rg[d][1]);
+		if (l + 60 < sizeof(desc)) l += snprintf(desc + l, sizeof(desc) - l, " dim %d [%g,%g]:", d, rg[d][0], rg[d][1]);
 		for (size_t i = 0; i < n && l + 30 < sizeof(desc); i++) l += snprintf(desc + l, sizeof(desc) - l, " %.17g", v[d][i]);
 	}
 	vf_fp_u64(preset);
